@@ -23,7 +23,7 @@ MATCHER_MODULES = ["rp2.tax_engine", "rp2.accounting_engine", "rp2.abstract_acco
 
 def items(pr):
     return [fn("rp2.abstract_entry_set.EntrySetIterator.__next__"), fn(AES + "._sort_entries"), fn(AES + ".__iter__"), fn(AES + ".duplicate"),
-            fn("rp2.input_data.InputData.__init__"), custom("matcher_read_frame", matcher_read_frame)]
+            fn("rp2.input_data.InputData.__init__"), custom("matcher_read_frame", matcher_read_frame), custom("computed_data_call_sites", computed_data_call_sites)]
 
 
 def matcher_read_frame(pr):
@@ -86,6 +86,11 @@ def canaries(pr):
         finally:
             S.CONTRACTS[q] = saved
     return [("window_exclusive_at_to_date_must_fail", exclusive_upper_bound)]
+
+
+def computed_data_call_sites(pr):
+    from props import C06
+    return C06.computed_data_call_sites(pr)
 
 
 MANIFEST_ENTRY = {
